@@ -637,6 +637,16 @@ func runEntry(w *hc.W, e common.Entry) {
 						ok = ri.EqEvs(tf.evs, tail)
 					}
 					if ok && len(tail) > 0 {
+						// ... and without waiting for the escape timeout: the byte in front is no
+						// text whatever follows ("decoding never stalls": with input arriving
+						// faster than the timeout the wait would never end)
+						af, _, _ := r.run(nil, [][]byte{s})
+						if af.pending != "" && sing[seqIdx[len(seqIdx)-1]].selfDone { // (a last token that is itself unfinished may wait)
+							w.Violation("held-after:"+names[0], fmt.Sprintf("%s: %s after the stray byte %s: after the read of %s nothing more can complete, yet %d bytes stay buffered until the escape timeout (%s); input that keeps arriving re-arms the timeout, so complete keys behind a stray byte are withheld without bound", r.entry, strings.Join(names[1:], " "), q(toks[a].b), q(s), len(af.pending), af),
+								map[string]interface{}{"Entry": r.entry, "Charset": "UTF-8", "Prefix": "", "Chunks": []string{string(s)}})
+						}
+					}
+					if ok && len(tail) > 0 {
 						w.R.Evaluations++
 						_, f, _ := r.run(nil, [][]byte{s})
 						if len(f.evs) < len(tail) || !ri.EqEvs(f.evs[len(f.evs)-len(tail):], tail) {
